@@ -445,8 +445,31 @@ def rule_global_state(cx, rid, mods, floor=40, only=None):
         return
     pf = pm.func("parse")
     ctx_def = Locals(pf).defs.get("ctx", [])
-    fresh = len(ctx_def) == 1 and isinstance(ctx_def[0], ast.Dict) and all(
-        isinstance(v, (ast.Constant, ast.Dict, ast.List, ast.Set)) or (isinstance(v, ast.Call) and call_name(v) in ("set", "dict", "list") and not v.args)
-        for v in ctx_def[0].values)
+    ctx_src = ctx_def[0] if len(ctx_def) == 1 else None
+    floc = Locals(pf)
+    if isinstance(ctx_src, ast.Call) and isinstance(ctx_src.func, ast.Name) and ctx_src.func.id in pm.funcs and not ctx_src.args and not ctx_src.keywords:
+        # a factory: `ctx = _new_parse_context()` whose only return is the dict (possibly through locals of the factory)
+        fac = pm.funcs[ctx_src.func.id]
+        floc = Locals(fac)
+        rets = [n_ for n_ in walk_local(fac) if isinstance(n_, ast.Return)]
+        ctx_src = rets[0].value if len(rets) == 1 else None
+
+    def fresh_value(v, depth=0):
+        """built anew on every call: literals, empty constructors, containers of such, locals defined once as such"""
+        if depth > 6 or v is None:
+            return False
+        if isinstance(v, ast.Constant):
+            return True
+        if isinstance(v, ast.Dict):
+            return all(k_ is not None and fresh_value(k_, depth + 1) for k_ in v.keys) and all(fresh_value(x, depth + 1) for x in v.values)
+        if isinstance(v, (ast.List, ast.Set, ast.Tuple)):
+            return all(fresh_value(x, depth + 1) for x in v.elts)
+        if isinstance(v, ast.Call) and call_name(v) in ("set", "dict", "list") and not v.args and not v.keywords:
+            return True
+        if isinstance(v, ast.Name) and v.id not in floc.params:
+            ds = floc.defs.get(v.id, [])
+            return len(ds) == 1 and isinstance(ds[0], ast.expr) and fresh_value(ds[0], depth + 1)
+        return False
+    fresh = isinstance(ctx_src, (ast.Dict, ast.Name)) and fresh_value(ctx_src) and (isinstance(ctx_src, ast.Dict) or isinstance((floc.defs.get(ctx_src.id) or [None])[0], ast.Dict))
     r.check(fresh, "parse/fresh-ctx", (pm, pf), "parse() must build its context from a fresh dict literal whose values are fresh literals")
 
